@@ -138,6 +138,9 @@ HCheck(m, e) ==
               ELSE IF m.pend[k] = <<>> THEN "no_effect_without_command_and_not_reapplied"
               ELSE "last_write_applied_at_next_callback"
     [] e.a = "panic" -> "no_panic"
+    \* a seek to or beyond the end of a streaming sound, read by the decoder at its next step, ends the audio: once what was buffered
+    \* before it has been played (the driver renders ring / n + 12 callbacks) the sound has finished - as a static sound would have
+    [] e.a = "fin" -> IF e.state # "Stopped" THEN "seek_to_the_end_ends_the_sound" ELSE ""
     \* the ring ran dry with a seek outstanding: the sound waits for its audio, it has not finished
     [] e.a = "held" -> IF e.state \in {"Stopped", "panic"} /\ \E k \in DOMAIN m.val : IsSj(k) /\ m.pend[k] # <<>> THEN "last_write_applied_at_next_callback" ELSE ""
     [] OTHER -> ""
